@@ -97,6 +97,24 @@ pub fn index_events<'a>(ev: impl Iterator<Item = NodeEvent<'a>>) -> Result<TreeI
     Ok(TreeIndex { nodes, leaves })
 }
 
+/// the text the tree was parsed from, taken from the leaves themselves (first leaf start .. last leaf end
+/// must be one contiguous stretch of `get_str` answers); None if the leaves do not tile - C01 reports that
+pub fn text_from_leaves(tree: &SyntaxTree, ix: &TreeIndex) -> Option<String> {
+    let mut out = String::new();
+    let mut pos = ix.leaves.first().map(|(l, _)| l.offset).unwrap_or(0);
+    if pos != 0 {
+        return None;
+    }
+    for (l, _) in &ix.leaves {
+        if l.offset != pos {
+            return None;
+        }
+        out.push_str(tree.get_str(*l)?);
+        pos = l.offset + l.len;
+    }
+    Some(out)
+}
+
 /// node kinds with exact leaf positions
 pub fn skeleton_full(tree: &SyntaxTree) -> String {
     let mut s = String::new();
